@@ -53,6 +53,9 @@ def showObj (o : JsonObj) : String :=
 def handleJws (toks : List String) (tbl : Table) : Option String :=
   let P := oraclePrims tbl
   match toks with
+  | ["jws.detach", a1] => do
+    let tok ← hexToBytes a1
+    some (showRes ((detachCompact tok).map bytesToHex))
   | [op, kind, strict, allowed, extra, algs, keyarg, a1] => do
     let regOpt ← readRegOpt kind strict allowed extra
     let algorithms ← readOptStrList algs
